@@ -31,7 +31,7 @@ Fixpoint c16_ops_from (g : gen) (s : st) (n : nat) (l : list (op * out * option 
   | (o, ro, rp) :: l' =>
       let '(s', mo) := step g s o in
       let tolerated := match o, ro with
-                       | OCopyField _ _ _ _, Error | ORefuzzField _ _ _, Error | OAdopt _ _ _, Error | OEditInside _ _ _, Error => true
+                       | OCopyField _ _ _ _, Error | ORefuzzField _ _ _, Error | OAdopt _ _ _, Error | OAdoptDerived _ _ _ _, Error | OEditInside _ _ _, Error => true
                        | _, _ => false
                        end in
       if tolerated then c16_ops_from g s (S n) l'
